@@ -1,5 +1,6 @@
 import StunVerif.Props.C08
 import StunVerif.Props.Utf8
+import StunVerif.Props.SrcFnDecode
 #print axioms StunVerif.C08.decode_iff
 #print axioms StunVerif.C08.decode_fields
 #print axioms StunVerif.C08.wrong_type
@@ -18,3 +19,12 @@ import StunVerif.Props.Utf8
 #print axioms StunVerif.Utf8.utf8Valid_iff
 #print axioms StunVerif.Utf8.head_of_encode
 #print axioms StunVerif.Utf8.encode_injective
+#print axioms StunVerif.SrcFnDecode.src_rawFromBytes
+#print axioms StunVerif.SrcFnDecode.src_msgTypeFromBytes
+#print axioms StunVerif.SrcFnDecode.foldl_be
+#print axioms StunVerif.SrcFnDecode.beNat_append
+#print axioms StunVerif.SrcFnDecode.pow_256_12
+#print axioms StunVerif.SrcFnDecode.pow_256_4
+#print axioms StunVerif.SrcFnDecode.cookie_iff
+#print axioms StunVerif.SrcFnDecode.len_field
+#print axioms StunVerif.SrcFnDecode.src_headerFromBytes
